@@ -16,6 +16,10 @@ ops:  ["c", hid, skey, name, {"wids":[..], "uargs":[..], "uarg":x, "beh":[ops], 
       ["k", wid]                      drop the last strong reference to weak argument wid + gc.collect()
       ["k1", wid]                     the same, but only in the handler's first call made by an outermost emit
       ["drop", skey]                  drop the last strong reference to the sender + gc.collect()
+
+Two further families have their own small interpreters: class-definition histories for the MetaSignals metaclass
+(`run_metaclass_program`: which names each class accepts afterwards) and the connections the library makes and drops
+itself (`run_setter_history`: `ListBox.body = ...`; `run_mainloop_history`: MainLoop.start()/stop()).
 """
 from __future__ import annotations
 
@@ -738,9 +742,315 @@ def run_widget(c):
 
 
 # ----------------------------------------------------------------------------------------------
+# registration through the metaclass: class-definition histories
+
+
+def metaclass_programs(quick):
+    """A program = a tuple of class statements (kind, bases, own), class i may only name earlier classes as bases:
+    kind "meta": `class Ci(*bases[, metaclass=MetaSignals]): [signals = own]` (own None = no declaration);
+    kind "plain": a base-less ordinary class without a `signals` attribute (a mixin the machinery knows nothing of).
+    Names: "n<i>" (declared by class i only), "s" (declared by several classes: duplicates), never "zz"."""
+    maxn = 4
+    root_own = [("n",), ("n", "s")] if quick else [("n",), ("n", "s"), ()]
+    sub_own = [None, ("n",), ("n", "s")] if quick else [None, (), ("n",), ("n", "s"), ("s",)]
+    maxb = 2 if quick else 3
+
+    def options(i):
+        out = [("meta", (), tuple(x + str(i) if x == "n" else x for x in own)) for own in root_own]
+        if i > 0:
+            out.append(("plain", (), None))
+        for k in range(1, maxb + 1):
+            for bases in itertools.permutations(range(i), k):
+                for own in sub_own:
+                    out.append(("meta", bases, None if own is None else tuple(x + str(i) if x == "n" else x for x in own)))
+        return out
+
+    def rec(prefix):
+        if prefix:
+            yield tuple(prefix)
+        if len(prefix) < maxn:
+            for o in options(len(prefix)):
+                yield from rec([*prefix, o])
+
+    return rec([])
+
+
+def run_metaclass_program(prog):
+    """Define the classes in order, then ask the real machinery about every (class, name): a name is accepted by
+    connect_signal iff the class or one of the classes it inherits from (its MRO) declared it; an accepted handler is
+    called exactly once per emit; a rejected name raises NameError, connects nothing.
+    -> ({kind: why} with the first finding of each kind, skipped); kinds: "foreign-name-accepted", "inherited-name-rejected",
+    "delivery" (an accepted handler not called exactly once / a rejected one called)"""
+    classes, own_of = [], {}
+    found = {}
+    made = []
+    try:
+        for i, (kind, bases, own) in enumerate(prog):
+            ns = {} if own is None else {"signals": list(own)}
+            bs = tuple(classes[b] for b in bases)
+            try:
+                if kind == "plain":
+                    c = type(f"P{i}", (), ns)
+                else:
+                    c = usig.MetaSignals(f"C{i}", bs, ns)
+            except TypeError:
+                return {}, True  # no consistent MRO: Python itself refuses the class statement
+            classes.append(c)
+            made.append(c)
+            own_of[c] = set(own or ())
+        universe = sorted({x for _k, _b, own in prog for x in (own or ())} | {"zz"})
+        for i, c in enumerate(classes):
+            if prog[i][0] == "plain":
+                continue  # never registered: not a sender class
+            want = set()
+            for k in c.__mro__:
+                want |= own_of.get(k, set())
+            for nm in universe:
+                obj = c()
+                calls = []
+
+                def h(*a, calls=calls):
+                    calls.append(a)
+                    return 1
+
+                try:
+                    urwid.connect_signal(obj, nm, h, user_args=["u"])
+                    accepted = True
+                except NameError:
+                    accepted = False
+                r = urwid.emit_signal(obj, nm, 5)
+                if accepted != (nm in want):
+                    if accepted:
+                        found.setdefault("foreign-name-accepted", f"class C{i} accepted connect_signal(.., {nm!r}) although neither it nor any class it inherits from "
+                                                                  f"declares that name (declared along its MRO: {sorted(want)})")
+                    else:
+                        found.setdefault("inherited-name-rejected", f"class C{i} rejected connect_signal(.., {nm!r}) with NameError although a class it inherits from "
+                                                                    f"declares that name (declared along its MRO: {sorted(want)})")
+                if accepted and (calls != [("u", 5)] or r is not True):
+                    found.setdefault("delivery", f"class C{i} signal {nm!r}: one emit made the calls {calls} and returned {r!r}; expected exactly one call ('u', 5) and True")
+                if not accepted and (calls or r is not False):
+                    found.setdefault("delivery", f"class C{i} rejected {nm!r} but the emit made the calls {calls} / returned {r!r}")
+        return found, False
+    finally:
+        for c in made:
+            usig._signals._supported.pop(c, None)  # only to restore the global registry
+
+
+# ----------------------------------------------------------------------------------------------
+# connections the library makes and drops itself: ListBox.body = ..., MainLoop.start() / stop()
+
+
+class _NoSignalWalker:
+    """A walker by duck typing (has get_focus) whose class registers no 'modified' signal."""
+
+    def get_focus(self):
+        return None, None
+
+    def get_next(self, position):
+        return None, None
+
+    def get_prev(self, position):
+        return None, None
+
+    def set_focus(self, position):
+        raise IndexError(position)
+
+
+class _CountingListBox(urwid.ListBox):
+    def __init__(self, body):
+        self.invalidations = 0
+        super().__init__(body)
+
+    def _invalidate(self):
+        self.invalidations += 1
+        super()._invalidate()
+
+
+WALKERS = ("E", "F", "N", "X")  # empty SimpleListWalker, empty SimpleFocusListWalker, non-empty SimpleFocusListWalker, no signal
+
+
+def setter_alphabet():
+    al = [["set", lb, w] for lb in (0, 1) for w in (*WALKERS, "P", "P0")]  # P: a plain non-empty list, P0: a plain empty list
+    al += [["mod", w] for w in ("E", "F", "N")]            # the walker announces a change: one emit of 'modified'
+    al += [["modbody", lb] for lb in (0, 1)]               # ... whatever the list box's current body is
+    al += [["fill", "E"], ["fill", "F"], ["empty", "N"]]   # the walker changes its own truth value (and emits as it likes)
+    return al
+
+
+def run_setter_history(c):
+    """Two list boxes, four walkers; after EVERY operation and for every list box: the number of `_invalidate` calls
+    the operation caused equals the number of 'modified' emits made by the walker that is its body (counted by a probe
+    handler connected to each walker before anything else), and 0 for emits of every other walker -- i.e. the handler is
+    connected exactly once to the current body and to nothing else.  (`set` itself invalidates the list box it is
+    applied to directly: that list box is not judged for that one operation.)"""
+    emits = {}
+    walkers = {}
+
+    def mk(tag, w):
+        walkers[tag] = w
+        emits[id(w)] = 0
+        if not isinstance(w, _NoSignalWalker):
+            urwid.connect_signal(w, "modified", lambda w=w: emits.__setitem__(id(w), emits[id(w)] + 1))
+        return w
+
+    mk("E", urwid.SimpleListWalker([]))
+    mk("F", urwid.SimpleFocusListWalker([]))
+    mk("N", urwid.SimpleFocusListWalker([urwid.Text("n0"), urwid.Text("n1")]))
+    mk("X", _NoSignalWalker())
+    lbs = [_CountingListBox(walkers[c["init"][0]]), _CountingListBox(walkers[c["init"][1]])]
+    body = [walkers[c["init"][0]], walkers[c["init"][1]]]
+    ops = [*c["ops"], *[["mod", w] for w in ("E", "F", "N")], ["modbody", 0], ["modbody", 1]]
+    for k, op in enumerate(ops):
+        for lb in lbs:
+            lb.invalidations = 0
+        for w in emits:
+            emits[w] = 0
+        skip = None
+        if op[0] == "set":
+            lb, tag = op[1], op[2]
+            if tag in ("P", "P0"):
+                lbs[lb].body = [urwid.Text("p")] if tag == "P" else []
+                w = lbs[lb].body
+                if type(w) is not urwid.SimpleListWalker or w is body[lb]:
+                    return f"op {k} {op}: a plain list was not wrapped in a new SimpleListWalker (body is {w!r})"
+                emits.setdefault(id(w), 0)
+                walkers[f"wrap{k}"] = w  # (kept alive: ids stay unique)
+                urwid.connect_signal(w, "modified", lambda w=w: emits.__setitem__(id(w), emits[id(w)] + 1))
+                # (the probe comes after the list box's own handler here; order is not judged)
+            else:
+                lbs[lb].body = walkers[tag]
+                w = walkers[tag]
+                if lbs[lb].body is not w:
+                    return f"op {k} {op}: body reads back {lbs[lb].body!r}"
+            body[lb] = w
+            skip = lb
+        elif op[0] == "mod":
+            walkers[op[1]]._modified()
+        elif op[0] == "modbody":
+            if isinstance(body[op[1]], _NoSignalWalker):
+                continue
+            body[op[1]]._modified()
+        elif op[0] == "fill":
+            walkers[op[1]].append(urwid.Text("x"))
+        elif op[0] == "empty":
+            del walkers[op[1]][:]
+        for i, lb in enumerate(lbs):
+            if i == skip:
+                continue
+            want = emits[id(body[i])]
+            if lb.invalidations != want:
+                others = {t: emits[id(w)] for t, w in walkers.items() if emits[id(w)]}
+                return (f"op {k} {op}: list box {i} (body {_wtag(walkers, body[i])}) had its 'modified' handler called {lb.invalidations} time(s); "
+                        f"its body emitted {want} time(s) (emits during the operation: {others}) -- "
+                        + ("a walker that is no longer its body still reaches the handler" if lb.invalidations > want and not want else
+                           "the handler is connected more than once" if lb.invalidations > want else "the handler is not connected to the body"))
+    return None
+
+
+def _wtag(walkers, w):
+    return next((t for t, x in walkers.items() if x is w), "?")
+
+
+def setter_histories(quick):
+    al = setter_alphabet()
+    L = 3 if quick else 4
+    inits = [("E", "N"), ("F", "F"), ("N", "E")]
+    for init in inits:
+        for ln in range(1, L + 1):
+            for idx in itertools.product(range(len(al)), repeat=ln):
+                ops = [al[i] for i in idx]
+                if not any(o[0] == "set" for o in ops):
+                    continue
+                yield {"init": list(init), "ops": ops}
+
+
+class _FakeScreen(urwid.display.common.BaseScreen):
+    def __init__(self):
+        super().__init__()
+        self.hooks = self.unhooks = 0
+
+    def _start(self):
+        pass
+
+    def _stop(self):
+        pass
+
+    def set_mouse_tracking(self, enable=True):
+        pass
+
+    def hook_event_loop(self, event_loop, callback):
+        self.hooks += 1
+
+    def unhook_event_loop(self, event_loop):
+        self.unhooks += 1
+
+    def get_cols_rows(self):
+        return 20, 5
+
+    def draw_screen(self, size, canvas):
+        pass
+
+
+class _FakeLoop:
+    def enter_idle(self, cb):
+        return object()
+
+    def remove_enter_idle(self, handle):
+        return True
+
+    def alarm(self, seconds, cb):
+        return object()
+
+    def remove_alarm(self, handle):
+        return True
+
+
+def run_mainloop_history(c):
+    """MainLoop.start() connects its `_reset_input_descriptors` to the screen's INPUT_DESCRIPTORS_CHANGED signal and
+    stop() disconnects it: between start and stop one emit re-hooks the screen exactly once, outside never."""
+    from urwid.display.common import INPUT_DESCRIPTORS_CHANGED
+
+    screens = [_FakeScreen(), _FakeScreen()]
+    loops = [urwid.MainLoop(urwid.SolidFill("x"), screen=screens[i % c["screens"]], event_loop=_FakeLoop(), handle_mouse=False) for i in range(2)]
+    running = [False, False]
+    for k, op in enumerate([*c["ops"], ["emit", 0], ["emit", 1]]):
+        if op[0] == "start":
+            if running[op[1]]:
+                continue  # (starting a started loop: not a history the API allows)
+            loops[op[1]].start()
+            running[op[1]] = True
+        elif op[0] == "stop":
+            if not running[op[1]]:
+                continue
+            loops[op[1]].stop()
+            running[op[1]] = False
+        else:
+            scr = screens[op[1]]
+            h0, u0 = scr.hooks, scr.unhooks
+            urwid.emit_signal(scr, INPUT_DESCRIPTORS_CHANGED)
+            want = sum(1 for i in range(2) if running[i] and loops[i].screen is scr)
+            if (scr.hooks - h0, scr.unhooks - u0) != (want, want):
+                return (f"op {k} {op}: one emit of INPUT_DESCRIPTORS_CHANGED on screen {op[1]} re-hooked it {scr.hooks - h0} time(s) "
+                        f"(unhooked {scr.unhooks - u0}); {want} started main loop(s) listen to it")
+    return None
+
+
+def mainloop_histories(quick):
+    al = [["start", 0], ["stop", 0], ["start", 1], ["stop", 1], ["emit", 0], ["emit", 1]]
+    for nscreens in (1, 2):
+        for ln in range(1, 5 if quick else 7):
+            for idx in itertools.product(range(len(al)), repeat=ln):
+                yield {"screens": nscreens, "ops": [al[i] for i in idx]}
+
+
+# ----------------------------------------------------------------------------------------------
 
 
 _N = [0]
+
+
+def _jsonable(x):
+    return list(x) if isinstance(x, tuple) else x
 
 
 def _eval(chk, key, sc, sample=None, count_ambiguous=None, expect_kill=False):
@@ -879,6 +1189,49 @@ def run(tier="quick", seed=0):
                     why = f"raised {type(e).__name__}: {e}"
                 c7.case(tuple(c.values()), why is None, {"why": why, "case": c}, True, c)
             out.append(c7.result())
+            # 9. registration through the metaclass
+            rule8 = ("class-definition histories (MetaSignals roots, plain mixins, single and multiple inheritance in every base order, with and without an own "
+                     "`signals` declaration, a name declared by several classes), then for EVERY class defined and every name: ")
+            bound8 = ("<= 4 class statements, <= " + ("2" if quick else "3") + " bases each (every ordered choice of earlier classes), own declaration in "
+                      + ("{none, [n_i], [n_i, s]}" if quick else "{none, [], [n_i], [n_i, s], [s]}") + "; every (class, name) pair probed after the last statement")
+            c8 = Check("C14/metaclass-registration", rule8 + "connect_signal REJECTS (NameError, nothing connected, emit calls nothing) every name that neither the class nor a class along its MRO declared; a handler connected to an accepted name is called exactly once per emit", True, bound8)
+            c8b = Check("C14/metaclass-inherited-names", rule8 + "connect_signal ACCEPTS every name declared by the class or by a class along its MRO", True, bound8)
+            skipped = 0
+            for prog in metaclass_programs(quick):
+                try:
+                    found, skip = run_metaclass_program(prog)
+                except Exception as e:  # noqa: BLE001
+                    found, skip = {"delivery": f"raised {type(e).__name__}: {e}"}, False
+                if skip:
+                    skipped += 1
+                    continue
+                jp = [list(map(_jsonable, st)) for st in prog]
+                why = found.get("foreign-name-accepted") or found.get("delivery")
+                c8.case(prog, why is None, {"why": why, "program": jp}, True, {"program": jp})
+                why = found.get("inherited-name-rejected")
+                c8b.case(prog, why is None, {"why": why, "program": jp}, True, {"program": jp})
+            for c in (c8, c8b):
+                r8 = c.result()
+                r8["skipped_inconsistent_mro"] = skipped
+                out.append(r8)
+
+            # 10. connections made and dropped by the library itself
+            al9 = setter_alphabet()
+            c9 = Check("C14/library-setter-connections", "ListBox.body = walker (empty / non-empty SimpleListWalker and SimpleFocusListWalker, plain lists, a walker without the signal; two list boxes that may share a walker; switched away and back; walkers filled and emptied in between) and MainLoop.start()/stop(): after every operation the library's own handler is called exactly once per emit of the object it currently listens to and never by one it was switched away from", True,
+                       f"ListBox: histories of <= {3 if quick else 4} operations (at least one assignment) over a {len(al9)}-letter alphabet x 3 initial bodies, + 5 probing emits; MainLoop: histories of <= {4 if quick else 6} start/stop/emit operations, 2 loops on 1 or 2 screens")
+            for c in setter_histories(quick):
+                try:
+                    why = run_setter_history(c)
+                except Exception as e:  # noqa: BLE001
+                    why = f"raised {type(e).__name__}: {e}"
+                c9.case(repr(c), why is None, {"why": why, "setter_history": c}, True, c)
+            for c in mainloop_histories(quick):
+                try:
+                    why = run_mainloop_history(c)
+                except Exception as e:  # noqa: BLE001
+                    why = f"raised {type(e).__name__}: {e}"
+                c9.case(repr(c), why is None, {"why": why, "mainloop_history": c}, True, c)
+            out.append(c9.result())
     finally:
         gc.unfreeze()
         sys.unraisablehook = old_hook
@@ -905,6 +1258,23 @@ def replay(check_name, case):
             if "self_weak" in case:
                 try:
                     why = run_self_weak(case["self_weak"])
+                except Exception as e:  # noqa: BLE001
+                    why = f"raised {type(e).__name__}: {e}"
+                return {"outcome": "confirmed" if why else "not-reproduced", "detail": {"why": why}}
+            if "program" in case:
+                prog = tuple((k, tuple(b), None if o is None else tuple(o)) for k, b, o in case["program"])
+                try:
+                    found, _skip = run_metaclass_program(prog)
+                except Exception as e:  # noqa: BLE001
+                    found = {"delivery": f"raised {type(e).__name__}: {e}"}
+                if check_name.endswith("metaclass-inherited-names"):
+                    why = found.get("inherited-name-rejected")
+                else:
+                    why = found.get("foreign-name-accepted") or found.get("delivery")
+                return {"outcome": "confirmed" if why else "not-reproduced", "detail": {"why": why, "all": found}}
+            if "setter_history" in case or "mainloop_history" in case:
+                try:
+                    why = run_setter_history(case["setter_history"]) if "setter_history" in case else run_mainloop_history(case["mainloop_history"])
                 except Exception as e:  # noqa: BLE001
                     why = f"raised {type(e).__name__}: {e}"
                 return {"outcome": "confirmed" if why else "not-reproduced", "detail": {"why": why}}
